@@ -14,6 +14,7 @@ Policies: RandomPolicy(p), PCTPolicy(depth), PlanPolicy(plan) where plan = {glob
 import hashlib
 import sys
 import threading
+import time
 
 TOOL_ID = 5
 
@@ -263,3 +264,37 @@ class ProxyLock(object):
 
     def __exit__(self, *a):
         self.release()
+
+
+class YieldInjector(object):
+    """Free-running threads: a LINE hook on the given code objects that gives up the GIL (time.sleep(0)) at a random
+    subset of statement boundaries, so that real preemption happens inside the short critical windows too.  No verdict
+    comes from it; it only widens the set of interleavings the free-running workloads see."""
+    TOOL = 2
+
+    def __init__(self, codes, prob=0.3, seed=0):
+        import random
+        self.codes, self.prob = list(codes), prob
+        self.rng = random.Random(seed)
+        self.yields = 0
+        self.mon = sys.monitoring
+
+    def _on_line(self, code, line):
+        if self.rng.random() < self.prob:
+            self.yields += 1
+            time.sleep(0)
+
+    def __enter__(self):
+        m = self.mon
+        m.use_tool_id(self.TOOL, 'vf-yield')
+        m.register_callback(self.TOOL, m.events.LINE, self._on_line)
+        for c in self.codes:
+            m.set_local_events(self.TOOL, c, m.events.LINE)
+        return self
+
+    def __exit__(self, *a):
+        m = self.mon
+        for c in self.codes:
+            m.set_local_events(self.TOOL, c, 0)
+        m.register_callback(self.TOOL, m.events.LINE, None)
+        m.free_tool_id(self.TOOL)
